@@ -462,7 +462,8 @@ C01_SET = set(
        "c08_q_accept_matrix", "c06_q_params_l2", "c06_t_params_l3",
        "c19_q_chan_step_n3", "c19_q_num_step_n3", "c19_t_chan_step_n8", "c19_t_num_step_n8"]
     + [f"c19_q_spec_iter_n{n}" for n in range(1, 4)] + ["c19_t_spec_iter_n6", "c19_t_spec_iter_n7"])
-C14_SET = {"c04_q_lex_m0_c0_n3", "c04_q_lex_m1_c0_n1", "c19_q_num_step_n3", "c07_q_other_u8", "c08_q_accept_matrix"}
+C14_SET = {"c04_q_lex_m0_c0_n3", "c04_q_lex_m1_c0_n1", "c19_q_num_step_n3", "c07_q_other_u8", "c08_q_accept_matrix",
+           "c07_q_kernel_u8", "c07_q_kernel_i16", "c07_q_nondec_i8"}  # value faults must be -222 (execution-error class)
 assert C14_SET <= {h["name"] for h in ALL}
 for _h in ALL:
     if _h["name"] in C01_SET and "C01" not in _h["also"]:
